@@ -147,3 +147,10 @@ package channeldb
 //@   site call Put nth 0: assert arg(0) == retn(fetchChanBucketRw, 0) && arg(key) == lastWasRevokeKey && ret(WriteElements) == nil && arg(value) == ret(Bytes, 0)
 //@   site call serializeCommitDiff: assert arg(1) == diff && ret(Put, 0) == nil
 //@   site call Put nth 1: assert arg(0) == retn(fetchChanBucketRw, 0) && arg(key) == commitDiffKey && ret(serializeCommitDiff) == nil && arg(value) == ret(Bytes, 1)
+//@
+//@ // ---- C02/C08: forwarding-package entries are keyed by the big-endian index, so that the bucket's key order is
+//@ // ---- the index order the filters and references rely on
+//@ func uint16Key
+//@   props C02 C08
+//@   site call PutUint16: assert arg(1) == key && arg(2) == i && len(key) == 2
+//@   ensures len(result) == 2
